@@ -255,6 +255,7 @@ def run(ctx):
     # 3b. the kernel contract: real ring methods over harness-owned memory + simulated kernel vs the Lean driver (krun2)
     kcases = K.directed_cases() + K.gen_cases(ctx.rng, 12000 if quick else 250000, 56 if quick else 160)
     split_cases = K.gen_cases(ctx.rng, 2500 if quick else 40000, 40 if quick else 120, split=True)
+    kexe_debug = None
     # the finding's minimal witness (= theorem reap_reference_outlives_slot) first
     split_cases.insert(0, "kring 0 0 1 0 0 : g 1 0 7 : f : k 1 : x 0 : g 2 0 8 : f : k 1 : x 0 : g 3 0 9 : f : k 1 : x 0 : rb : o 1 : rr : r : r : r")
     for release in (False, True):
@@ -264,6 +265,8 @@ def run(ctx):
             ctx.broken.append({"harness_build_failed": err})
             ctx.violation({"kind": "harness-build-failed", "mode": "cfg-" + mode}, {"error": err}, no_input=True)
             return
+        if not release:
+            kexe_debug = kexe
         C.correspond(ctx, "kring-" + mode, kcases, [kexe], drv, K.judge, K.sig_of)
         C.correspond(ctx, "kring-malformed-" + mode, K.MALFORMED, [kexe], drv, K.judge, K.sig_of)
         # below call granularity (the reference get_next_cqe returns is read after kernel steps): a KNOWN finding,
@@ -290,8 +293,21 @@ def run(ctx):
         # ... and the finding: a kernel overflow flush between get_next_cqe() and the read of the returned reference
         nref = len(lines)
         lines += ["refrace %d" % e for e in (1, 2, 8, 64)]
-        rc, outs, errt = C.run_filter([exe], lines, timeout=(100 if quick else 1700))
+        # the overflow / refrace lines run on the cfg(tiny_std_verif) build: with the read-only view of the ring pointers the
+        # harness copies each completion out BEFORE get_next_cqe advances the head, so its accounting is immune to the known
+        # finding (which otherwise shows up by itself, rarely, as a torn completion) and reports it when it happens
+        rc, outs, errt = C.run_filter([exe], lines[:nover], timeout=(100 if quick else 1700))
+        rc2, outs2, errt2 = C.run_filter([kexe_debug], lines[nover:], timeout=(200 if quick else 1700))
+        outs, errt = outs + outs2, errt + errt2
         ctx.evaluations += len(lines)
+        # the same overflow scenario with a few microseconds of user-mode work between get_next_cqe() and the read of the
+        # returned reference, no system call in between (informational: how readily the known finding shows up in the wild)
+        _, wild, _ = C.run_filter([kexe_debug], ["overflow %s/w%d %d %d %d" % (tmp, i, ctx.rng.below(2**32), 60, e) for i, e in enumerate((1, 3, 8))],
+                                  timeout=300, env={"C18_READ_DELAY_SPINS": "3000"})
+        ctx.extra["reference_overwritten_in_the_wild_with_3000_spins_before_the_read"] = [w[:260] for w in wild]
+        for w in wild:
+            if w.startswith("refrace-in-the-wild"):
+                ctx.violation({"op": "overflow-delayed-read", "kind": "held-reference-overwritten"}, {"implementation": w[:400]})
         ctx.extra["oracle_run"] = outs
         if len(outs) != len(lines):
             ctx.violation({"kind": "oracle-run-crashed"}, {"lines": lines, "outputs": outs, "stderr": errt[-400:]})
@@ -307,16 +323,21 @@ def run(ctx):
                     continue
                 if not o.endswith("exactly-once=true"):
                     ctx.violation({"op": "refrace", "kind": "held-reference-overwritten"},
-                                  {"case": ln, "implementation": o, "how_to_replay": "echo '%s' | %s" % (ln, exe),
+                                  {"case": ln, "implementation": o, "how_to_replay": "echo '%s' | %s" % (ln, kexe_debug),
                                    "why": "on the running kernel: the completion read through the reference get_next_cqe returned changed when the kernel "
                                           "flushed its overflow list (get_next_cqe had already advanced the shared head): one operation's completion is "
                                           "lost, another is reaped twice"})
             for ln, o in zip(lines[nover:nref], outs[nover:nref]):
+                if o.startswith("refrace-in-the-wild "):
+                    # the known finding, caught in the act on the running kernel (the accounting used the copies taken before the head moved)
+                    ctx.violation({"op": "overflow", "kind": "held-reference-overwritten"},
+                                  {"case": ln, "implementation": o[:600], "how_to_replay": "echo '%s' | %s   # timing dependent" % (ln, kexe_debug)})
+                    o = "agree " + o[len("refrace-in-the-wild "):].split(" first: ")[0]
                 if not o.startswith("agree "):
                     ctx.violation({"op": "overflow", "kind": o.split(":")[0][:60] if o.startswith("mismatch") else o[:30]},
                                   {"case": ln, "implementation": o, "how_to_replay": "echo '%s' | %s" % (ln, exe)})
                 else:
-                    kv = dict(x.split("=") for x in o.split()[1:])
+                    kv = dict(x.split("=") for x in o.split()[1:] if "=" in x)
                     ctx.hist("oracle_overflow", "ops", int(kv["ops"]))
                     ctx.hist("oracle_overflow", "through-overflow-or-late", int(kv["through-overflow-or-late"]))
                     ctx.hist("oracle_overflow", "out-of-order-pairs", int(kv["out-of-order-pairs"]))
